@@ -1,6 +1,7 @@
 package sync
 
 import (
+	"bytes"
 	"context"
 	"encoding/hex"
 	"errors"
@@ -152,11 +153,32 @@ func (syncService *SyncService[H]) initStoreAndStartSyncer(ctx context.Context, 
 	if initial.IsZero() {
 		return errors.New("failed to initialize the store and start syncer")
 	}
+	if err := syncService.verifyAgainstGenesis(initial); err != nil {
+		return err
+	}
 	if err := syncService.store.Init(ctx, initial); err != nil {
 		return err
 	}
 	if err := syncService.StartSyncer(ctx); err != nil {
 		return err
+	}
+	return nil
+}
+
+// verifyAgainstGenesis checks an item obtained from a peer before it becomes the root of the store: every later
+// item is only verified against its predecessor, so the root is what ties the store to this chain. A header
+// must name the proposer of the genesis and carry its valid signature - any connected peer may have served it.
+func (syncService *SyncService[H]) verifyAgainstGenesis(initial H) error {
+	if initial.ChainID() != syncService.genesis.ChainID {
+		return fmt.Errorf("peer served an item of chain %q, expected %q", initial.ChainID(), syncService.genesis.ChainID)
+	}
+	if h, ok := any(initial).(*types.SignedHeader); ok {
+		if !bytes.Equal(h.ProposerAddress, syncService.genesis.ProposerAddress) {
+			return fmt.Errorf("peer served a header of height %d that is not by the proposer of the genesis", h.Height())
+		}
+		if err := h.ValidateBasic(); err != nil {
+			return fmt.Errorf("peer served an invalid header of height %d: %w", h.Height(), err)
+		}
 	}
 	return nil
 }
@@ -317,11 +339,22 @@ func (syncService *SyncService[H]) setFirstAndStart(ctx context.Context, peerIDs
 				return fmt.Errorf("failed to fetch the trusted header/block for initializing the store: %w", err)
 			}
 		} else {
-			// Try fetching the genesis header/block if available, otherwise fallback to block
+			// Try fetching the genesis header/block if available, otherwise fallback to block.
+			// Any connected peer may answer (in an order shuffled per request): an answer that is not the genesis
+			// proposer's is discarded and the request repeated a few times.
 			var err error
-			if trusted, err = syncService.ex.GetByHeight(ctx, syncService.genesis.InitialHeight); err != nil {
-				// Full/light nodes have to wait for aggregator to publish the genesis block
-				// proposing aggregator can init the store and start the syncer when the first block is published
+			for attempt := 0; attempt < 5; attempt++ {
+				if trusted, err = syncService.ex.GetByHeight(ctx, syncService.genesis.InitialHeight); err != nil {
+					// Full/light nodes have to wait for aggregator to publish the genesis block
+					// proposing aggregator can init the store and start the syncer when the first block is published
+					return fmt.Errorf("failed to fetch the genesis: %w", err)
+				}
+				if err = syncService.verifyAgainstGenesis(trusted); err == nil {
+					break
+				}
+				syncService.logger.Warn("discarding the genesis item served by a peer", "error", err)
+			}
+			if err != nil {
 				return fmt.Errorf("failed to fetch the genesis: %w", err)
 			}
 		}
